@@ -742,3 +742,11 @@ def safe_walk_with_max(module: Node) -> list[str]:
         parent = parent[: max(parent.rfind("."), 0)]
         parents.append(parent)
     return parents
+
+
+def unsafe_raw_prefix_of_other_names(module: Node, listed: list[Node]) -> list[str]:
+    found = []
+    for candidate in listed:
+        if module != candidate and module.startswith(candidate):
+            found.append(candidate)
+    return found
